@@ -12,7 +12,7 @@ import BpProofs.SpecLink
   accepts, the spec decoder yields the abstraction of the model's result).
 
   This file is separate from `BpProofs/Props/C02.lean` because the C01 files (`BpProofs/Rt*`)
-  and the C02 helper files (`BpProofs/SpecWf` …) both define `Bp.foldFields_append` and cannot
+  and the C02 helper files (`BpProofs/SpecWf` …) used to define `Bp.foldFields_append` (since renamed) and cannot
   be imported together; `BpProofs/SpecLink*.lean` import neither.
 
   FULL STATEMENT (target, kept visible):
